@@ -495,3 +495,288 @@ Proof.
     + exists [-3]. split; [reflexivity|]. intros w. unfold vsub, vneg. cbn. lra.
     + intros y _. cbn. apply ex_min.
 Qed.
+
+(** ** The steps on COMPOSITE functions (f = f1 + 2 f2, ...): the same generated programs over C07's function table
+
+    Everything above runs the generated programs over Model/StepsRT.v, where every function is a leaf.  The
+    theorems below run THE SAME programs ([step_program name opt], every step and option) over the state of
+    Model/Func.v (C07's model of Function.oracle / value / add_point on leaves AND weighted sums of leaves)
+    with the interpreter Model/StepsFunc.v; proofs in Proofs/C08Composite.v.
+
+    [C07Inv.inv] is C07's invariant (one value per point, one gradient per point of a differentiable function,
+    every sample of a sum = the weighted sum of samples of its terms at that point, stationary samples, flags).
+    [StepsFunc.ok_prog prog a (s, cs)] is the decidable guard: C07's side conditions [Func.op_scoped] and
+    [Func.op_guard] of the op each instruction performs, evaluated along the execution (oracle / value: the
+    function exists, the query point has unique keys over existing leaves and no explicit zero coefficient
+    (F-C07b); add_point: unique keys, the point is not yet recorded for the function nor for one of its terms).
+    The zero functions of F-C07c/d/e are excluded by [inv s] itself. *)
+From PV Require Model.Func Model.StepsFunc Proofs.C07Dict Proofs.C07Inv Proofs.C07InvB Proofs.C07Thm Proofs.C08Composite.
+
+(** every bookkeeping instruction of a step IS one op of C07's op language (with exactly its side
+    conditions) whenever the dictionaries it hands over are those of point terms; the others do not touch
+    the function table *)
+Theorem C08_composite_instruction_is_func_op :
+  forall (a : args) (tp : nat -> pterm) (i : sinstr) (e : env) (s : Func.state) (cs : StepsFunc.clog),
+  (forall v, e_p e v = Func.pt (tp v)) ->
+  match C08Composite.op_of a tp e i with
+  | Some o =>
+      (exists e', StepsFunc.exec_s a i (e, (s, cs)) = inl (e', (Func.step s o, cs))) /\
+      StepsFunc.guard_s a i (e, (s, cs)) = (Func.op_scoped s o && Func.op_guard s o)%bool
+  | None =>
+      StepsFunc.guard_s a i (e, (s, cs)) = true /\
+      match StepsFunc.exec_s a i (e, (s, cs)) with
+      | inl (_, (s', _)) => s' = s
+      | inr (_, (_, (s', _))) => s' = s
+      end
+  end.
+Proof. exact C08Composite.exec_s_is_func_op. Qed.
+Print Assumptions C08_composite_instruction_is_func_op.
+
+(** (a) each of the 8 generated steps, with every option, applied to ANY function (leaf or composite) and any
+    start points, in a state that satisfies C07's invariant, yields a state that satisfies it again *)
+Theorem C08_composite_step_preserves_invariant :
+  forall (name opt : string) (a : args) (s : Func.state) (cs : StepsFunc.clog),
+  C07Inv.inv s -> StepsFunc.ok_prog (step_program name opt) a (s, cs) = true ->
+  C07Inv.inv (StepsFunc.run_state (step_program name opt) a (s, cs)).
+Proof. exact (fun name opt => C08Composite.run_inv_steps (step_program name opt)). Qed.
+Print Assumptions C08_composite_step_preserves_invariant.
+
+(** ... in particular after any op sequence accepted by C07 (functions built with the operators, evaluated,
+    given stationary points, ... in any order) *)
+Theorem C08_composite_step_after_ops_preserves_invariant :
+  forall (ops : list Func.op) (name opt : string) (a : args) (cs : StepsFunc.clog),
+  Func.ops_ok ops = true -> StepsFunc.ok_prog (step_program name opt) a (Func.run ops, cs) = true ->
+  C07Inv.inv (StepsFunc.run_state (step_program name opt) a (Func.run ops, cs)).
+Proof. exact (fun ops name opt => C08Composite.run_inv_steps_after_ops ops (step_program name opt)). Qed.
+Print Assumptions C08_composite_step_after_ops_preserves_invariant.
+
+(** (it is a property of the step LANGUAGE: any program, so a change of a step's source cannot escape it) *)
+Theorem C08_composite_any_program_preserves_invariant :
+  forall (prog : program) (a : args) (s : Func.state) (cs : StepsFunc.clog),
+  C07Inv.inv s -> StepsFunc.ok_prog prog a (s, cs) = true -> C07Inv.inv (StepsFunc.run_state prog a (s, cs)).
+Proof. exact C08Composite.run_inv_steps. Qed.
+Print Assumptions C08_composite_any_program_preserves_invariant.
+
+(** a step creates no function and leaves stay leaves *)
+Theorem C08_composite_step_keeps_functions :
+  forall (name opt : string) (a : args) (s : Func.state) (cs : StepsFunc.clog),
+  let s' := StepsFunc.run_state (step_program name opt) a (s, cs) in
+  C07Inv.nfun s' = C07Inv.nfun s /\ forall j, Func.f_leaf (Func.getf s' j) = Func.f_leaf (Func.getf s j).
+Proof. exact (fun name opt => C08Composite.run_shape (step_program name opt)). Qed.
+Print Assumptions C08_composite_step_keeps_functions.
+
+(** (b) after a step, EVERY sample of every composite -- those the step recorded on it included -- is the
+    weighted sum of samples recorded for its terms at that point: same point decomposition, gradient and value
+    equal to the weighted sums in every inner-product space under every valuation of the leaves *)
+Theorem C08_composite_step_samples_are_weighted_sums :
+  forall (name opt : string) (a : args) (s : Func.state) (cs : StepsFunc.clog),
+  C07Inv.inv s -> StepsFunc.ok_prog (step_program name opt) a (s, cs) = true ->
+  let s' := StepsFunc.run_state (step_program name opt) a (s, cs) in
+  forall F t, (F < C07Inv.nfun s)%nat -> Func.f_leaf (Func.getf s F) = false -> In t (Func.f_pts (Func.getf s' F)) ->
+    exists ch : nat -> Func.sample,
+      (forall i q, In (i, q) (Func.f_w (Func.getf s' F)) ->
+         In (ch i) (Func.f_pts (Func.getf s' i)) /\
+         dict_eqb Nat.eqb (C07Dict.xof (ch i)) (C07Dict.xof t) = true) /\
+      forall (E : ips) (rho : nat -> E) (phi : nat -> R),
+        veq (evalP rho (C07Dict.gof t))
+            (C07Thm.wlin rho (Func.f_w (Func.getf s' F)) (fun i => C07Dict.gof (ch i))) /\
+        evalE rho phi (C07Dict.vof t) =
+        C07Thm.wsum rho phi (Func.f_w (Func.getf s' F)) (fun i => C07Dict.vof (ch i)).
+Proof. exact (fun name opt => C08Composite.run_composite_samples (step_program name opt)). Qed.
+Print Assumptions C08_composite_step_samples_are_weighted_sums.
+
+(** the instruction [f.add_point((x, g, fx))] (proximal, linear-optimisation, Bregman, inexact-proximal,
+    epsilon-subgradient steps): the pruned triple is recorded on [f], and when [f] is a composite it is the
+    weighted sum of the samples the distribution recorded on the terms *)
+Theorem C08_composite_add_point_records_weighted_sum :
+  forall (a : args) (f x g fx : nat) (e : env) (s : Func.state) (cs : StepsFunc.clog),
+  C07Inv.inv s -> StepsFunc.guard_s a (AddPoint f x g fx) (e, (s, cs)) = true ->
+  let F := a_fun a f in
+  let s' := Func.add_point s F (e_p e x, e_p e g, e_x e fx) in
+  let t := (prune (e_p e x), prune (e_p e g), prune (e_x e fx)) in
+  C07Inv.inv s' /\ In t (Func.f_pts (Func.getf s' F)) /\
+  (Func.f_leaf (Func.getf s F) = false -> C08Composite.weighted_sum_at s' F t).
+Proof. exact C08Composite.addpoint_composite_weighted_sum. Qed.
+Print Assumptions C08_composite_add_point_records_weighted_sum.
+
+(** the instruction [g, fx = f.oracle(p)] (inexact-gradient, line-search steps): what is returned is recorded
+    on [f] at a point equal to the query, and for a composite it is the weighted sum of samples of the terms *)
+Theorem C08_composite_oracle_returns_weighted_sum :
+  forall (a : args) (f p g fx : nat) (e : env) (s : Func.state) (cs : StepsFunc.clog),
+  C07Inv.inv s -> StepsFunc.guard_s a (Oracle f p g fx) (e, (s, cs)) = true ->
+  let F := a_fun a f in
+  let s' := fst (Func.oracle s F (e_p e p)) in
+  let gd := fst (snd (Func.oracle s F (e_p e p))) in
+  let vd := snd (snd (Func.oracle s F (e_p e p))) in
+  C07Inv.inv s' /\
+  exists x0, In (x0, gd, vd) (Func.f_pts (Func.getf s' F)) /\ dict_eqb Nat.eqb x0 (e_p e p) = true /\
+             (Func.f_leaf (Func.getf s F) = false -> C08Composite.weighted_sum_at s' F (x0, gd, vd)).
+Proof. exact C08Composite.oracle_composite_weighted_sum. Qed.
+Print Assumptions C08_composite_oracle_returns_weighted_sum.
+
+(** when the function IS a leaf, nothing changes: on states that describe the same leaves ([sim]: same
+    counters, same flag / samples / side constraints for every leaf) the two interpreters return the same
+    tuple or raise the same exception, leave the same environment (argument objects after in-place pruning)
+    and again states that describe the same leaves -- instruction by instruction and for whole programs; so
+    every [_records] / [_exact] / [_real] theorem above is a theorem about the composite-aware interpreter on
+    leaf functions *)
+Theorem C08_leaf_agreement_instruction :
+  forall (a : args) (i : sinstr) (e : env) (rs : state) (fs : StepsFunc.fstate),
+  C08Composite.sim rs fs -> C08Composite.leaf_args a (fst fs) ->
+  match exec_s a i (e, rs), StepsFunc.exec_s a i (e, fs) with
+  | inl (e1, rs'), inl (e2, fs') => e1 = e2 /\ C08Composite.sim rs' fs'
+  | inr (x1, (e1, rs')), inr (x2, (e2, fs')) => x1 = x2 /\ e1 = e2 /\ C08Composite.sim rs' fs'
+  | _, _ => False
+  end.
+Proof. exact C08Composite.exec_s_agree. Qed.
+Print Assumptions C08_leaf_agreement_instruction.
+
+Theorem C08_leaf_agreement_step :
+  forall (name opt : string) (a : args) (rs : state) (fs : StepsFunc.fstate),
+  C08Composite.sim rs fs -> C08Composite.leaf_args a (fst fs) ->
+  fst (run_full (step_program name opt) a rs) = fst (StepsFunc.run_full (step_program name opt) a fs) /\
+  fst (snd (run_full (step_program name opt) a rs)) = fst (snd (StepsFunc.run_full (step_program name opt) a fs)) /\
+  C08Composite.sim (snd (snd (run_full (step_program name opt) a rs)))
+                   (snd (snd (StepsFunc.run_full (step_program name opt) a fs))).
+Proof. exact (fun name opt => C08Composite.run_agree (step_program name opt)). Qed.
+Print Assumptions C08_leaf_agreement_step.
+
+(** [sim] is inhabited for every function table: [rt_of fs] is its leaf-only view *)
+Theorem C08_leaf_agreement_leaf_view :
+  forall (prog : program) (a : args) (fs : StepsFunc.fstate),
+  C08Composite.leaf_args a (fst fs) ->
+  fst (run prog a (C08Composite.rt_of fs)) = fst (StepsFunc.run prog a fs) /\
+  C08Composite.sim (snd (run prog a (C08Composite.rt_of fs))) (snd (StepsFunc.run prog a fs)).
+Proof. exact C08Composite.run_agree_rt_of. Qed.
+Print Assumptions C08_leaf_agreement_leaf_view.
+
+(** (c) non-vacuity.  F = f0 + 2 f1 with f0 differentiable, f1 not; x0 the leaf point 0.
+    proximal_step(x0, F, 1/2): guard true, invariant holds afterwards; returned x = x0 - gx/2, gx, fx;
+    F records (x, gx, fx); f0 is evaluated at x with a fresh gradient P2 and value X1, f1 (the last term) receives
+    the remainder (gx - P2)/2 and (fx - X1)/2. *)
+Definition cex_ops : list Func.op :=
+  [Func.NewPoint; Func.NewLeaf true; Func.NewLeaf false; Func.Combine [(0%nat, 1%Q); (1%nat, 2%Q)]].
+Definition cex_prox_args : args := mk_args [[(0%nat, 1%Q)]] [2%nat] [(1 # 2)%Q] [].
+
+Example C08_composite_proximal_step_example :
+  Func.ops_ok cex_ops = true /\
+  StepsFunc.ok_prog prog_proximal_step cex_prox_args (Func.run cex_ops, []) = true /\
+  let s' := StepsFunc.run_state prog_proximal_step cex_prox_args (Func.run cex_ops, []) in
+  C07InvB.inv_b s' = true /\
+  match fst (StepsFunc.run prog_proximal_step cex_prox_args (Func.run cex_ops, [])) with
+  | ROk [RP x; RP gx; RX fx] =>
+      (dict_eqb Nat.eqb x [(0%nat, 1%Q); (1%nat, (-1 # 2)%Q)] && dict_eqb Nat.eqb gx [(1%nat, 1%Q)]
+       && dict_eqb ekey_eqb fx [(KF 0, 1%Q)])%bool
+  | _ => false
+  end = true /\
+  match Func.f_pts (Func.getf s' 2%nat), Func.f_pts (Func.getf s' 0%nat), Func.f_pts (Func.getf s' 1%nat) with
+  | [(xF, gF, vF)], [(x0', g0, v0)], [(x1, g1, v1)] =>
+      (dict_eqb Nat.eqb xF [(0%nat, 1%Q); (1%nat, (-1 # 2)%Q)] && dict_eqb Nat.eqb x0' xF && dict_eqb Nat.eqb x1 xF
+       && dict_eqb Nat.eqb gF [(1%nat, 1%Q)] && dict_eqb ekey_eqb vF [(KF 0, 1%Q)]
+       && dict_eqb Nat.eqb g0 [(2%nat, 1%Q)] && dict_eqb ekey_eqb v0 [(KF 1, 1%Q)]
+       && dict_eqb Nat.eqb g1 [(1%nat, (1 # 2)%Q); (2%nat, (-1 # 2)%Q)]
+       && dict_eqb ekey_eqb v1 [(KF 0, (1 # 2)%Q); (KF 1, (-1 # 2)%Q)])%bool
+  | _, _, _ => false
+  end = true.
+Proof. vm_compute. repeat split; reflexivity. Qed.
+
+(** inexact_gradient_step(x0, F, 1/2, 1/4, "relative") after f0.oracle(x0): f0 is differentiable and already
+    evaluated (needs nothing), F's gradient P2 and value X1 are fresh, f1 receives the remainders; the side
+    constraint |g - d|^2 <= eps^2 |g|^2 is recorded on F (function 2) with g = P2 the oracle output; the step
+    returns x0 - d/2, d = P3, fx0 = X1. *)
+Definition cex_ops2 : list Func.op := (cex_ops ++ [Func.Oracle 0%nat (PVar 0)])%list.
+Definition cex_ig_args : args := mk_args [[(0%nat, 1%Q)]] [2%nat] [(1 # 2)%Q; (1 # 4)%Q] [].
+
+Example C08_composite_inexact_gradient_step_example :
+  Func.ops_ok cex_ops2 = true /\
+  StepsFunc.ok_prog (step_program "inexact_gradient_step" "relative") cex_ig_args (Func.run cex_ops2, []) = true /\
+  let out := StepsFunc.run (step_program "inexact_gradient_step" "relative") cex_ig_args (Func.run cex_ops2, []) in
+  let s' := fst (snd out) in
+  C07InvB.inv_b s' = true /\
+  match fst out with
+  | ROk [RP x; RP d; RX fx0] =>
+      (dict_eqb Nat.eqb x [(0%nat, 1%Q); (3%nat, (-1 # 2)%Q)] && dict_eqb Nat.eqb d [(3%nat, 1%Q)]
+       && dict_eqb ekey_eqb fx0 [(KF 1, 1%Q)])%bool
+  | _ => false
+  end = true /\
+  match Func.f_pts (Func.getf s' 2%nat), Func.f_pts (Func.getf s' 0%nat), Func.f_pts (Func.getf s' 1%nat) with
+  | [(xF, gF, vF)], [(_, g0, v0)], [(x1, g1, v1)] =>
+      (dict_eqb Nat.eqb xF [(0%nat, 1%Q)] && dict_eqb Nat.eqb x1 xF
+       && dict_eqb Nat.eqb gF [(2%nat, 1%Q)] && dict_eqb ekey_eqb vF [(KF 1, 1%Q)]
+       && dict_eqb Nat.eqb g0 [(1%nat, 1%Q)] && dict_eqb ekey_eqb v0 [(KF 0, 1%Q)]
+       && dict_eqb Nat.eqb g1 [(2%nat, (1 # 2)%Q); (1%nat, (-1 # 2)%Q)]
+       && dict_eqb ekey_eqb v1 [(KF 1, (1 # 2)%Q); (KF 0, (-1 # 2)%Q)])%bool
+  | _, _, _ => false
+  end = true /\
+  match StepsFunc.cons_of (snd (snd out)) 2%nat with
+  | [(c, Ineq)] => dict_eqb ekey_eqb c [(KG 2 2, (15 # 16)%Q); (KG 2 3, (-1)%Q); (KG 3 2, (-1)%Q); (KG 3 3, 1%Q)]
+  | _ => false
+  end = true /\
+  StepsFunc.cons_of (snd (snd out)) 0%nat = [] /\ StepsFunc.cons_of (snd (snd out)) 1%nat = [].
+Proof. vm_compute. repeat split; reflexivity. Qed.
+
+(** on a leaf the composite-aware interpreter and Model/StepsRT.v give the same answer (instance of
+    [C08_leaf_agreement_leaf_view], computed) *)
+Example C08_leaf_agreement_example :
+  let fs := (Func.run cex_ops2, []) in
+  let a := mk_args [[(0%nat, 1%Q)]] [0%nat] [(1 # 2)%Q; (1 # 4)%Q] [] in
+  C08Composite.leaf_args a (fst fs) /\
+  Dump.D_eqb (dump_result (fst (run (step_program "inexact_gradient_step" "absolute") a (C08Composite.rt_of fs))))
+        (dump_result (fst (StepsFunc.run (step_program "inexact_gradient_step" "absolute") a fs))) = true.
+Proof.
+  intros fs a. split; [|vm_compute; reflexivity].
+  intros k. replace (a_fun a k) with 0%nat by (destruct k as [|[|k]]; reflexivity).
+  split; [vm_compute; repeat constructor|vm_compute; reflexivity].
+Qed.
+
+(** ** Closed forms of the guard for three of the generated steps (Proofs/C08CompositeSteps.v): conditions on the
+    ARGUMENTS only, in every state that satisfies C07's invariant, for every function -- leaf or composite.
+    (For the other steps the guard stays the computed [StepsFunc.ok_prog].) *)
+From PV Require Proofs.C08CompositeSteps.
+
+(** proximal_step(x0, F, gamma): F exists, x0 has unique keys over existing leaf points, gamma <> 0 *)
+Theorem C08_composite_proximal_step_preserves_invariant :
+  forall (x0 : pdict) (F : nat) (gamma : Q) (s : Func.state) (cs : StepsFunc.clog),
+  C07Inv.inv s -> (F < C07Inv.nfun s)%nat -> Func.pwf_b s x0 = true -> ~ (gamma == 0)%Q ->
+  C07Inv.inv (StepsFunc.run_state prog_proximal_step (mk_args [x0] [F] [gamma] []) (s, cs)).
+Proof. exact C08CompositeSteps.proximal_step_composite_inv. Qed.
+Print Assumptions C08_composite_proximal_step_preserves_invariant.
+
+(** ... and the triple (x0 - gamma gx, gx, fx) it records on a composite F is the F-weighted sum of the samples
+    the distribution makes the terms of F record at that point *)
+Theorem C08_composite_proximal_step_sample_is_weighted_sum :
+  forall (x0 : pdict) (F : nat) (gamma : Q) (s : Func.state) (cs : StepsFunc.clog),
+  C07Inv.inv s -> (F < C07Inv.nfun s)%nat -> Func.f_leaf (Func.getf s F) = false ->
+  Func.pwf_b s x0 = true -> ~ (gamma == 0)%Q ->
+  let s' := StepsFunc.run_state prog_proximal_step (mk_args [x0] [F] [gamma] []) (s, cs) in
+  let gx := [(Func.pt_ctr s, 1%Q)] in
+  let t := (prune (p_sub x0 (p_scal gamma gx)), prune gx, prune [(KF (Func.ex_ctr s), 1%Q)]) in
+  In t (Func.f_pts (Func.getf s' F)) /\ C08Composite.weighted_sum_at s' F t.
+Proof. exact C08CompositeSteps.proximal_step_composite_sample. Qed.
+Print Assumptions C08_composite_proximal_step_sample_is_weighted_sum.
+
+(** inexact_gradient_step(x0, F, gamma, eps, notion), every notion (valid, default, invalid): F exists, x0 has
+    unique keys over existing leaf points and no explicit zero coefficient (F-C07b) -- exactly the guard *)
+Theorem C08_composite_inexact_gradient_step_guard :
+  forall (prog : program) (x0 : pdict) (F : nat) (gamma eps : Q) (s : Func.state) (cs : StepsFunc.clog),
+  prog = prog_inexact_gradient_step_absolute \/ prog = prog_inexact_gradient_step_relative \/
+  prog = prog_inexact_gradient_step_invalid ->
+  StepsFunc.ok_prog prog (mk_args [x0] [F] [gamma; eps] []) (s, cs) =
+  (Func.in_range s F && Func.pwf_b s x0 && Func.allnz_b x0)%bool.
+Proof. exact C08CompositeSteps.inexact_gradient_guard. Qed.
+Print Assumptions C08_composite_inexact_gradient_step_guard.
+
+Theorem C08_composite_inexact_gradient_step_preserves_invariant :
+  forall (opt : string) (x0 : pdict) (F : nat) (gamma eps : Q) (s : Func.state) (cs : StepsFunc.clog),
+  C07Inv.inv s -> (F < C07Inv.nfun s)%nat -> Func.pwf_b s x0 = true -> Func.allnz_b x0 = true ->
+  C07Inv.inv (StepsFunc.run_state (step_program "inexact_gradient_step" opt) (mk_args [x0] [F] [gamma; eps] []) (s, cs)).
+Proof. exact C08CompositeSteps.inexact_gradient_step_composite_inv. Qed.
+Print Assumptions C08_composite_inexact_gradient_step_preserves_invariant.
+
+(** linear_optimization_step(dir, F): F exists, dir has unique keys *)
+Theorem C08_composite_linear_optimization_step_preserves_invariant :
+  forall (dir : pdict) (F : nat) (s : Func.state) (cs : StepsFunc.clog),
+  C07Inv.inv s -> (F < C07Inv.nfun s)%nat -> NoDupKeys nat dir ->
+  C07Inv.inv (StepsFunc.run_state prog_linear_optimization_step (mk_args [dir] [F] [] []) (s, cs)).
+Proof. exact C08CompositeSteps.linear_optimization_step_composite_inv. Qed.
+Print Assumptions C08_composite_linear_optimization_step_preserves_invariant.
